@@ -13,7 +13,7 @@ import vlib
 import drv_brokerclient as D
 from props import brokerclient_lib as L
 
-THEOREMS = ["C10_never_stuck", "C10_one_connection", "C10_table_shape", "C10_reachable", "C10_resend", "C10_resend_at_loss", "C10_never_resent", "C10_once_per_connection", "C10_write_own_id",
+THEOREMS = ["C10_reentrant_reachable", "C10_reentrant_never_resent", "C10_reentrant_conservative", "C10_unguarded_flush_refuted", "C10_never_stuck", "C10_one_connection", "C10_table_shape", "C10_reachable", "C10_resend", "C10_resend_at_loss", "C10_never_resent", "C10_once_per_connection", "C10_write_own_id",
             "C10_reconnect_iff_pending", "C10_idle_connects_on_request", "C10_backoff_fail", "C10_backoff_fire", "C10_backoff",
             "C10_close", "C10_closed_forever"]
 WHICH = ("C10",)
@@ -80,7 +80,7 @@ def drop_point_histories(rnd, n):
 
 def run(ck):
     vlib.import_repo()
-    ck.build(["brokerclient"])
+    ck.build(["brokerclient", "brokerclienthook"])
     ck.props()
     rnd = random.Random(ck.seed)
     thorough = ck.tier == "thorough"
@@ -107,18 +107,15 @@ def run(ck):
 
     L.sync_connect_part(ck, rnd, 400 * (10 if thorough else 1), THEOREMS)
     L.reentrant_part(ck, rnd, 400 * (10 if thorough else 1), THEOREMS)
+    L.reentrant_part(ck, rnd, 600 * (10 if thorough else 1), THEOREMS, native=True)
 
-    # ---- finding F-C10-1 (outside the model: re-entrant close() from the callback of a no-reply request inside _sendQueued)
+    # ---- finding F-C10-1 (repaired by 7c12cf4): the witness is replayed on every run as a regression probe
     observed, fev, fouts = L.probe_f_c10_1()
     what = ("close() called from the callback of a no-reply request while the queue is flushed on a new connection: a request "
-            "is written after close() failed its Deferred (afkak/brokerclient.py:382-386)")
-    frp = {"kind": "finding witness", "events": D.jsonable(fev), "hooks": {"0": ["close"]}, "outputs_of_connect_event": [list(map(repr, o)) for o in fouts],
-           "replay_op": "bc-hook-probe"}
-    if ("C10", "F-C10-1") in vlib.load_known():
-        ck.finding("F-C10-1", observed, what, frp)
-    else:   # reported to the coordinator; not yet listed in known_findings.txt: recorded, outside the claimed statement
-        ck.cov["known_findings"].append({"id": "F-C10-1", "observed": bool(observed), "listed": None, "what": what,
-                                         "note": "outside the model (callbacks re-entering from a no-reply request); reported, awaiting a fix:/known: decision"})
+            "is written after close() failed its Deferred (afkak/brokerclient.py _sendQueued)")
+    frp = {"kind": "finding witness", "theorem": "C10_reentrant_never_resent", "events": [["makethen", 1, ["close"]], ["make", 2, True], ["ok"]], "hooks": {},
+           "outputs_of_connect_event": [list(map(repr, o)) for o in fouts], "replay_op": "bc-hook"}
+    ck.finding("F-C10-1", observed, what, frp)
 
     L.exhaustive(ck, 7 if thorough else 6, "whole", WHICH, THEOREMS, rnd)
     if thorough:
@@ -138,7 +135,7 @@ def run(ck):
         "Twisted (Deferred, Clock, deferLater, maybeDeferred) is exercised, not verified; that a reactor fires the back-off timer after the delay it was given is runtime behaviour: the model carries the failure COUNT handed to the retry policy, the driver checks the float bit for bit",
         "the retry policy is a parameter (any callable); jitter of afkak's default policy is outside the statement",
         "request payload bytes are outside the model; sendString/transport.write assumed not to raise (brokerclient.py:370-373 not modelled)",
-        "endpoints whose connect() completes synchronously are outside the model's alphabet; the model header argues they equal the outcome arriving as the next event, and this check runs that comparison on the real code (sync_connect_part); callbacks re-entering the client: from reply callbacks checked the same way (reentrant_part); from the callback of a no-reply request (fired in the middle of _sendQueued) NOT covered - finding F-C10-1 is probed and recorded",
+        "endpoints whose connect() completes synchronously are outside the model's alphabet; the model header argues they equal the outcome arriving as the next event, and this check runs that comparison on the real code (sync_connect_part); callbacks re-entering the client: from reply callbacks (tail position) checked the same way (reentrant_part); close()/cancel() from the callback of a no-reply request (fired in the middle of _sendQueued, finding F-C10-1) are INSIDE the extended model Model/BrokerClientHook.v (theorems C10_reentrant_*) and its correspondence; other calls (makeRequest, disconnect) from that callback are not modelled",
         "loseConnection() is only a REQUEST in the simulated transport: the loss is the separate event `lost`, so the window between the two is explored",
         "extraction: ExtrOcamlBasic only; sample re-evaluated in Coq by vm_compute (the exhaustive enumeration is compared against the extracted runner only)",
     ]
